@@ -49,7 +49,7 @@ def tasks(tier, seed):
     for n in (600, 1000):
         for part, K, box in (("Binary", None, "u1"), ("Kary", 3, "u1")):
             cfg = configs.cfg("StroquOOL", part, K, configs.BOXES[box], n=n)
-            ts.append({"kind": "algo", "label": "dev/StroquOOL%d/%s" % (n, part), "cfg": cfg, "mode": "dev", "T": 60 if tier == "quick" else 150,
+            ts.append({"kind": "algo", "label": "dev/StroquOOL%d/%s" % (n, part), "cfg": cfg, "mode": "dev", "T": 60 if tier == "quick" else 100,
                        "R": list(configs.R3), "base": "peak", "k": 1, "max_exec": 3000 if tier == "quick" else 60000})
     return ts
 
